@@ -1702,6 +1702,8 @@ class Spec:
         self.sync = False
 
     def proc_id(self, name):
+        if name == "mk_t1":
+            return ("proc", name)       # module function that returns an object of type t1
         if name in self.u.generics:
             return ("generic", name)    # generic interface of the module
         if name in self.u.funcs or name in self.u.subs:
@@ -1967,6 +1969,9 @@ def classify_diff(spec: Spec, missing: set, extra: set, dup: list) -> tuple[set,
 # --------------------------------------------------------------------------
 
 
+MK_T1 = ["  function mk_t1(k) result(r)", "    integer, optional :: k", "    type(t1) :: r", "    r%cnt = 0", "  end function mk_t1"]
+
+
 def module_text(u: Universe) -> list[str]:
     L = ["module m_types", "  implicit none", f"  real :: {u.garr}(100)"]
     for tn, td in u.types.items():
@@ -1997,7 +2002,8 @@ def module_text(u: Universe) -> list[str]:
             else:
                 L += [f"  function {tn}_{b}(self, k, k2) result(r)", f"    class({tn}) :: self",
                       "    integer, optional :: k, k2", "    real :: r", "    r = 0.0", f"  end function {tn}_{b}"]
-    L += ["  function mk_t1(k) result(r)", "    integer, optional :: k", "    type(t1) :: r", "    r%cnt = 0", "  end function mk_t1"]
+    if not getattr(u, "mk_after", False):
+        L += MK_T1
     for f in u.module_funcs:
         L += [f"  function {f}(p1, p2, p3) result(r)", "    real, optional :: p1, p2, p3", "    real :: r", "    r = 1.0",
               f"  end function {f}"]
@@ -2027,7 +2033,7 @@ def build_file(u: Universe, per: dict, fixed: bool = False) -> list[str]:
     if u.ctx == "other-module":
         top = ["module m_unit"] + ([] if u.spec.use_in_unit else ["  use m_types"]) + ["  implicit none", "contains"]
         return mod + ["end module m_types", ""] + top + unit + ["end module m_unit"]
-    return mod + unit + ["end module m_types"]
+    return mod + unit + (MK_T1 if getattr(u, "mk_after", False) else []) + ["end module m_types"]
 
 
 def host_names(cu, host_vars=None):
@@ -2408,6 +2414,33 @@ def make_case(seed_tuple):
         g.kinds = kinds
         n = rng.choice([2, 3, 4, 5, 6, 8]) if cu is u else rng.choice([1, 2, 3, 4])
         bodies.append([g.stmt(0) for _ in range(n)])
+    # round 6: the selector of an ASSOCIATE may be a function reference that returns an object
+    # (`associate (p => mk_t1(2))` ... `p%get()`): the chain through the associate name then STARTS
+    # at a function.  Where the module function stands relative to the unit is free in Fortran.
+    # (decided by an RNG of its own, so that all other cases stay as they were)
+    r2 = random.Random(str((seed_tuple, "selector-function")))
+    u.mk_after = u.ctx == "same-module" and r2.random() < 0.5
+    u.fun_selectors = 0
+
+    def selector_pass(b):
+        out = []
+        for s_ in b:
+            if s_[0] == "associate":
+                items = []
+                for nm, ex in s_[1]:
+                    if ex[0] == "var" and OBJS.get(ex[1]) == "t1" and r2.random() < 0.2:
+                        ex = ("fun", "mk_t1", [("num", r2.choice(["1", "2"]))])
+                        u.fun_selectors += 1
+                        kinds["associate-selector-function-reference"] = kinds.get("associate-selector-function-reference", 0) + 1
+                    items.append((nm, ex))
+                s_ = (s_[0], items, selector_pass(s_[2])) + tuple(s_[3:])
+            else:
+                for key, inner in sub_bodies(s_):
+                    s_ = replace_body(s_, key, selector_pass(inner))
+            out.append(s_)
+        return out
+
+    bodies = [selector_pass(b) for b in bodies]
     return rng, u, kinds, bodies
 
 
@@ -2738,9 +2771,15 @@ def run(tier: str, seed: int, replay: str | None = None) -> int:
             if ev["impl"][0] != "ok" or any(un["unit_lines"] is None or un["impl"] is None for un in ev["units"]):
                 n_impl_err += 1
                 why = ev["impl"][1] if ev["impl"][0] != "ok" else "a generated unit was not found in the parsed project / reader output"
-                rep.tie_broken(f"unit case {k}: the implementation could not process a generated legal unit: {why}",
-                               dict(case0, impl=str(why)))
-                rep.failing_input(dict(case0, why="FORD raised on / lost a legal generated unit: " + str(why)), None)
+                fid = None
+                if (u.fun_selectors and ev["impl"][0] != "ok"
+                        and str(why) == "AttributeError: 'FortranFunction' object has no attribute 'all_types'"):
+                    # class: a chain recorded in the unit starts (after ASSOCIATE substitution) at a function
+                    fid = "C08-chain-through-uncorrelated-function-raises"
+                else:
+                    rep.tie_broken(f"unit case {k}: the implementation could not process a generated legal unit: {why}",
+                                   dict(case0, impl=str(why)))
+                rep.failing_input(dict(case0, why="FORD raised on / lost a legal generated unit: " + str(why)), fid)
                 continue
             for ui, un in enumerate(ev["units"]):
                 cu, body = un["cu"], un["body"]
